@@ -775,7 +775,42 @@ def extract(path):
         if isinstance(node, ast.Assign) and isinstance(node.targets[0], ast.Name) \
                 and node.targets[0].id in ("SERVER_CONTEXT_STRING", "CLIENT_CONTEXT_STRING"):
             flow.append((node.targets[0].id, node.value.value.decode("ascii")))
+    # trust store of verify_certificate(): every call on the X509Store and the store context, with
+    # the enclosing `if` tests / `for` iterables
+    vf = funcs["verify_certificate"]
+    store_flow = []
+
+    def walk_store(stmts, ctxs):
+        for st in stmts:
+            if isinstance(st, ast.If):
+                walk_store(st.body, ctxs + ["if " + dotted(st.test)])
+                walk_store(st.orelse, ctxs + ["if not (" + dotted(st.test) + ")"])
+            elif isinstance(st, ast.For):
+                walk_store(st.body, ctxs + ["for " + dotted(st.target) + " in " + dotted(st.iter)])
+            elif isinstance(st, ast.Try):
+                walk_store(st.body, ctxs)
+                for h in st.handlers:
+                    walk_store(h.body, ctxs + ["except " + (dotted(h.type) if h.type else "")])
+                walk_store(st.orelse, ctxs)
+            elif isinstance(st, ast.With):
+                walk_store(st.body, ctxs)
+            else:
+                for x in ast.walk(st):
+                    if isinstance(x, ast.Call):
+                        fn = dotted(x.func)
+                        if fn.startswith("store.") or fn.startswith("store_ctx.") or fn.endswith("X509StoreContext") \
+                                or fn.endswith("X509Store"):
+                            store_flow.append((" ; ".join(ctxs), dotted(x).replace("\n", " ")))
+                    if isinstance(x, (ast.Assign, ast.AugAssign)) and "store" in dotted(x) and not isinstance(x, ast.Call):
+                        pass
+
+    walk_store(vf.body, [])
+    for x in ast.walk(vf):        # the store must not leak into helpers we do not see
+        if isinstance(x, ast.Call) and any(dotted(a) in ("store", "store_ctx") for a in list(x.args) + [k.value for k in x.keywords]) \
+                and not dotted(x.func).endswith("X509StoreContext"):
+            bad(x, "verify_certificate passes the trust store to another function")
     return {
+        "verify_cert_store": store_flow,
         "auth_flow": flow,
         "verify_cert_args": vc_args[0], "config_writers": [[a, writers[a]] for a in cfg],
         "source": os.path.relpath(path, os.path.dirname(os.path.dirname(os.path.dirname(path)))),
